@@ -13,3 +13,12 @@ for rel in L.FILES:
     out[rel] = {q: {"params": v["params"], "kind": v["kind"], "callers": sorted(v["callers"])} for q, v in facts.items()}
 json.dump(out, open(H.TABLE, "w"), indent=0, sort_keys=True)
 print({k: len(v) for k, v in out.items()})
+
+# reference structure of the xonsh grammar rules (rename detection, xpverif/repo.py:restore_rule_names)
+from xpverif import repo, cpygram
+if os.path.exists(repo.REF_RULES):
+    os.remove(repo.REF_RULES)
+repo.gram_x.cache_clear()
+g = repo.gram_x()
+json.dump({n: repr(cpygram.rule_sig(r)) for n, r in g.rules.items()}, open(repo.REF_RULES, "w"), indent=0, sort_keys=True)
+print("rule signatures:", len(g.rules))
